@@ -53,6 +53,8 @@ def cases(tier, seed):
             out.append(dict(mode="dfs", alphabet=name, prefix=list(pre), depth=b[f"pruned_{name}_depth"]))
     for pre in itertools.product(WRITE, repeat=2):
         out.append(dict(mode="wdfs", prefix=list(pre), depth=b["write_depth"]))
+    for pre in itertools.product(CORE, repeat=2):  # the same core histories with the flag defaults given as integers
+        out.append(dict(mode="rdfs", alphabet="core", prefix=list(pre), depth=5, intflags=True))
     out.append(dict(mode="narrowpid"))
     # the same operations on a CROWD (hundreds of particles, very few of them dead): histories beyond the depth bound, chosen not enumerated
     for n3 in (40, 134, 400):
@@ -69,7 +71,7 @@ def new_state():
     return State(
         instance_variables=dict(age=float, tag=int),
         particle_variables=dict(weight=float, rt="time"),
-        default_values=dict(age=0.0, weight=1.0),
+        default_values=dict(age=0.0, weight=1.0, **(dict(alive=1, active=1) if _INTFLAGS else {})),
     )
 
 
@@ -548,7 +550,25 @@ def run_narrowpid(case):
     return util.result(evals=2, nontrivial=2, viol=viols, outcomes=["narrowpid"], states=2, transitions=4, sample=case)
 
 
+_INTFLAGS = False
+
+
 def run_case(case):
+    """`intflags`: the alive/active defaults are given as the integers 1 in the configuration (`default_values: {alive: 1, active: 1}`)."""
+    global _INTFLAGS
+    _INTFLAGS = bool(case.get("intflags"))
+    try:
+        res = _run_case(case)
+    finally:
+        _INTFLAGS = False
+    if case.get("intflags"):
+        for v in res.get("viol", []):
+            v["case"] = dict(v["case"], intflags=True)
+            v["msg"] = "[flag defaults given as integers] " + v["msg"]
+    return res
+
+
+def _run_case(case):
     if case["mode"] == "narrowpid":
         return run_narrowpid(case)
     if case["mode"] == "dfs":
